@@ -105,3 +105,64 @@ mut("c10_logdet_sign", CO, '''        ln_beta_new = -0.5 * (
         )''', '''        ln_beta_new = -0.5 * (
             yb_Lambda_yb + self.Dx * jnp.log(2 * jnp.pi) - self.ln_det_Sigma
         )''', ["C10"])
+# ---- C05 / C06
+mut("c05_marginal_precision_slice", PD, '''        marginal_density = GaussianPDF(Sigma=Sigma_new, mu=mu_new)
+        return marginal_density
+
+    def entropy''', '''        Lambda_new = self.Lambda[jnp.ix_(jnp.arange(self.Sigma.shape[0]), dim_x, dim_x)]
+        marginal_density = GaussianPDF(Sigma=Sigma_new, mu=mu_new, Lambda=Lambda_new)
+        return marginal_density
+
+    def entropy''', ["C05", "C02"])
+mut("c05_linear_sum_b_dropped", PD, '''        if b is not None:
+            mu_sum += b''', '''        if b is not None and b.shape[0] == 1:
+            mu_sum += b''', ["C05"])
+mut("c05_linear_sum_einsum", PD, '"abc,acd,aed->abe", W, self.Sigma, W', '"abc,adc,aed->abe", W, self.Sigma, W', [])
+mut("c06_M_sign", PD, '''        dim_x = jnp.setxor1d(dim_xy, dim_y)
+        # dim_x = dim_xy[jnp.logical_not(jnp.isin(dim_xy, dim_y))]
+        Lambda_x = self.Lambda[:, dim_x][:, :, dim_x]
+        Sigma_x, ln_det_Lambda_x = invert_matrix(Lambda_x)
+        M_x = -jnp.einsum(''', '''        dim_x = jnp.setxor1d(dim_xy, dim_y)
+        # dim_x = dim_xy[jnp.logical_not(jnp.isin(dim_xy, dim_y))]
+        Lambda_x = self.Lambda[:, dim_x][:, :, dim_x]
+        Sigma_x, ln_det_Lambda_x = invert_matrix(Lambda_x)
+        M_x = jnp.einsum(''', ["C06"])
+mut("c06_b_unpermuted", PD, '''        b_x = self.mu[:, dim_x] - jnp.einsum("abc,ac->ab", M_x, self.mu[:, dim_y])
+        return conditional.ConditionalGaussianPDF(
+            M=M_x, b=b_x, Sigma=Sigma_x, Lambda=Lambda_x, ln_det_Sigma=-ln_det_Lambda_x
+        )
+
+    def condition_on_explicit''', '''        b_x = self.mu[:, dim_x] - jnp.einsum("abc,ac->ab", M_x, self.mu[:, jnp.sort(dim_y)])
+        return conditional.ConditionalGaussianPDF(
+            M=M_x, b=b_x, Sigma=Sigma_x, Lambda=Lambda_x, ln_det_Sigma=-ln_det_Lambda_x
+        )
+
+    def condition_on_explicit''', ["C06"])
+# ---- C13
+mut("c13_kl_without_D", PD, '''            + dmu_Sigma_dmu
+            - self.D
+''', '''            + dmu_Sigma_dmu
+''', ["C13"])
+mut("c13_entropy_without_one", PD, "entropy = 0.5 * (self.D * (1.0 + jnp.log(2 * jnp.pi)) + self.ln_det_Sigma)",
+    "entropy = 0.5 * (self.D * (jnp.log(2 * jnp.pi)) + self.ln_det_Sigma)", ["C13"])
+mut("c13_mi_from_prior_entropy", CO, '''        p_y = self.affine_marginal_transformation(p_x, **kwargs)
+        mutual_info = p_y.entropy() - cond_entropy
+        return mutual_info
+
+    def update_Sigma(self, Sigma_new: Float[Array, "R Dy Dy"]):
+        """Updates the covariance matrix :math:`\\Sigma`.
+
+        Args:
+            Sigma_new: The new covariance matrix
+
+''', '''        p_y = self.affine_marginal_transformation(p_x, **kwargs)
+        mutual_info = p_x.entropy() - cond_entropy
+        return mutual_info
+
+    def update_Sigma(self, Sigma_new: Float[Array, "R Dy Dy"]):
+        """Updates the covariance matrix :math:`\\Sigma`.
+
+        Args:
+            Sigma_new: The new covariance matrix
+
+''', ["C13"])
